@@ -308,7 +308,12 @@ func runC10Imm(c *Ctx) {
 				return
 			}
 			nsites++
-			if s := sharedOrigin(p, target, 0); s != "" {
+			s := sharedOrigin(p, target, 0)
+			if s == "" {
+				// the written container or object is reached through a shared one (x.f[k] = v with x from a table)
+				s = sharedHolder(p, target)
+			}
+			if s != "" {
 				k := FuncName(fn) + "|" + what
 				occ[k]++
 				c.bad(fmt.Sprintf("%s#%d", k, occ[k]), in.Pos(), "mutates data that comes from "+s+": the built-in tables and the configuration are shared by all files of a run (data race, and later files see the modification)")
